@@ -164,7 +164,11 @@ def _source(draw):
                     out.append(define())
                 else:
                     # a directive inside an inactive branch must have no effect
-                    out.append("#define " + draw(st.sampled_from(MNAMES)) + " dead%d" % dead[0])
+                    if defined and draw(st.booleans()):
+                        out.append("#undef " + draw(st.sampled_from(sorted(defined))))      # the macro stays defined
+                        feats.add("undef_in_inactive")
+                    else:
+                        out.append("#define " + draw(st.sampled_from(MNAMES)) + " dead%d" % dead[0])
                     feats.add("directive_in_inactive")
             elif c == 6 and active and defined:
                 nm = draw(st.sampled_from(sorted(defined)))
@@ -198,6 +202,11 @@ def _source(draw):
         return out
 
     lines = block(2, True)
+    if defined and draw(st.booleans()):
+        # a last line that uses what is still defined: side effects of directives in inactive branches show up here
+        lines.append(" ; ".join(use(n, ()) for n in sorted(defined)))
+        lines.append("\n".join("#ifdef %s\nyes_%s\n#else\nno_%s\n#endif" % (n, n, n) for n in sorted(defined)[:2]))
+        feats.add("final_use_of_all_macros")
     return dict(kind="source", text="\n".join(lines), feats=sorted(feats))
 
 
